@@ -1,0 +1,23 @@
+//go:build verif
+// +build verif
+
+package utxo
+
+import "sync/atomic"
+
+// Yield points for a monitor that wants to run the admission protocol under schedules of its own
+// choosing (build tag verif only). They sit between the atomic steps of the protocol - never
+// inside one of the short mutex-protected sections - so a goroutine parked at one holds at most
+// the shared state lock and its own key locks, as a goroutine descheduled there would.
+
+var verifYield atomic.Value // *func(point string)
+
+// SetVerifYield installs f as the function called at every yield point (nil removes it).
+func SetVerifYield(f func(point string)) { verifYield.Store(&f) }
+
+// VerifYield is called by the admission path at its yield points.
+func VerifYield(point string) {
+	if p, _ := verifYield.Load().(*func(point string)); p != nil && *p != nil {
+		(*p)(point)
+	}
+}
